@@ -18,7 +18,7 @@ import numpy as np
 from harness import common, gen, qasm_reader
 from harness.props.c02 import lean_ops
 
-MODULES = ['CirqVerif.Props.C19', 'CirqVerif.Props.C19Ccx', 'CirqVerif.Props.C19Cswap']
+MODULES = ['CirqVerif.Props.C19', 'CirqVerif.Props.C19Ccx', 'CirqVerif.Props.C19Cswap', 'CirqVerif.Props.C19b', 'NonVacuity.ComplexModel']
 
 
 def phase_close(a, b, tol):
@@ -188,6 +188,7 @@ def run(ctx: common.Run):
         ctx.report_unproved('lean-build', f'{failing}', {'theorem_or_correspondence': failing})
         return
     check_qudits_rejected(ctx, cirq)
+    check_emission(ctx, cirq)
     n = 150 if ctx.tier == 'quick' else 2500
     rng = ctx.substream('qasm')
     # ---------------------------------------------------------------- unitary circuits
@@ -335,6 +336,59 @@ def run(ctx: common.Run):
             ctx.report_witness(sig, 'the classical registers of the emitted OpenQASM program do not have the joint distribution of the circuit\'s measurement results',
                                dict(rep, impl_out=[sorted((repr(k), round(v, 8)) for k, v in got.items())], spec_out=[sorted((repr(k), round(v, 8)) for k, v in want2.items())],
                                     theorem_or_correspondence='Spec.Qasm.runProgram vs Spec.Circuit.run'))
+
+
+def check_emission(ctx, cirq):
+    """Cirq prints exactly the spellings whose meaning Props/C19b.lean proves for every parameter value (angles in half turns):
+    the theorem on the left decides what the line means, this stream that the line is what the gate family emits."""
+    rng = ctx.substream('emission')
+    q = cirq.LineQubit(0)
+    n = 40 if ctx.tier == 'quick' else 600
+
+    def generic():
+        while True:
+            t = round(rng.uniform(-0.99, 0.99), 4)
+            if min(abs(t - x) for x in (-1, -0.75, -0.5, -0.25, 0, 0.25, 0.5, 0.75, 1)) > 1e-3:
+                return t
+
+    for it in range(n):
+        t, p, shift = generic(), round(rng.uniform(-1, 1), 4), rng.choice([0, -0.5, 0.25])
+        th, ph, lm = (round(rng.uniform(0.01, 1.99), 4) for _ in range(3))
+        cases = [
+            ('C19_emit_rx', cirq.XPowGate(exponent=t, global_shift=shift), [('rx', [t])]),
+            ('C19_emit_rx', cirq.rx(math.pi * t), [('rx', [t])]),
+            ('C19_emit_ry', cirq.YPowGate(exponent=t, global_shift=shift), [('ry', [t])]),
+            ('C19_emit_ry', cirq.ry(math.pi * t), [('ry', [t])]),
+            ('C19_emit_rz', cirq.ZPowGate(exponent=t, global_shift=shift), [('rz', [t])]),
+            ('C19_emit_rz', cirq.rz(math.pi * t), [('rz', [t])]),
+            ('C19_emit_hpow', cirq.HPowGate(exponent=t, global_shift=shift), [('ry', [0.25]), ('rx', [t]), ('ry', [-0.25])]),
+            ('C19_emit_phasedx', cirq.PhasedXPowGate(exponent=t, phase_exponent=p), [('u3', [-t, p + 0.5, -p - 0.5])]),
+            ('C19_emit_phasedx_half', cirq.PhasedXPowGate(exponent=0.5, phase_exponent=p), [('u2', [p - 0.5, -p + 0.5])]),
+            ('C19_emit_phasedx_neg_half', cirq.PhasedXPowGate(exponent=-0.5, phase_exponent=p), [('u2', [p + 0.5, -p - 0.5])]),
+            ('C19_qasm_u_gate', cirq.circuits.qasm_output.QasmUGate(th, ph, lm), [('u3', [th, ph, lm])]),
+        ]
+        for rule, gate, want in cases:
+            ctx.count('check', 'emission:' + rule)
+            ctx.case(['emission', rule, repr(gate)], True)
+            rep = {'lines': [{'rule': rule, 'gate': repr(gate)}], 'theorem_or_correspondence': rule}
+            try:
+                text = cirq.Circuit(gate.on(q)).to_qasm(precision=10)
+                prog = qasm_reader.parse(text)
+                got = [(s['name'], [x / math.pi for x in s['params']]) for s in prog.stmts if s['kind'] == 'gate']
+            except Exception as e:  # noqa: BLE001
+                ctx.report_witness(f'emission:{rule}:raises', 'a library gate cannot be exported', dict(rep, impl_out=[f'{type(e).__name__}: {e}'[:300]], spec_out=[repr(want)]))
+                continue
+            same = len(got) == len(want) and all(a[0] == b[0] and len(a[1]) == len(b[1]) and all(abs(x - y) < 1e-8 for x, y in zip(a[1], b[1])) for a, b in zip(got, want))
+            if same:
+                continue
+            # a different spelling is not a violation by itself: the float interpretation of the text decides
+            out = ctx.driver.ask([{'p': 'C19', 'op': 'unitary', 'nq': 1, 'stmts': stmts_json([s for s in prog.stmts if s['kind'] == 'gate']), 'stdgates3': False}])[0]
+            u = cirq.unitary(gate)
+            cols = np.array([[common.j2c(z) for z in row] for row in out['matrix']]) if 'matrix' in out else None
+            if cols is not None and phase_close(cols, u, 1e-6):
+                ctx.report_unproved(rule, 'the gate is no longer exported with the spelling the theorem is about (the text still denotes the gate in floats)', dict(rep, impl_out=[repr(got)], spec_out=[repr(want)]))
+            else:
+                ctx.report_witness(f'emission:{rule}', 'the exported line does not denote the gate', dict(rep, impl_out=[repr(got)], spec_out=[repr(want)]))
 
 
 def check_qudits_rejected(ctx, cirq):
